@@ -37,6 +37,8 @@ pub struct RefTask {
     /// crash count if a loss of any node of the task counts
     pub crash_any: u32,
     pub running_on: Vec<u32>,
+    /// dependencies that had already ended unsuccessfully when this task was submitted
+    pub deps_bad_at_submit: Vec<u32>,
 }
 
 #[derive(Debug, Clone, Default, PartialEq, Eq)]
@@ -114,11 +116,22 @@ pub fn reference_fold(records: &[Event]) -> RefState {
                         }
                         JobTaskDescription::Graph { tasks, .. } => {
                             for t in tasks {
+                                let deps: Vec<u32> = t.task_deps.iter().map(|d| d.as_num()).collect();
+                                let bad: Vec<u32> = deps
+                                    .iter()
+                                    .copied()
+                                    .filter(|d| {
+                                        j.tasks
+                                            .get(d)
+                                            .is_some_and(|x| matches!(x.status, "failed" | "canceled" | "aborted"))
+                                    })
+                                    .collect();
                                 j.tasks.insert(
                                     t.id.as_num(),
                                     RefTask {
                                         status: "waiting",
-                                        deps: t.task_deps.iter().map(|d| d.as_num()).collect(),
+                                        deps,
+                                        deps_bad_at_submit: bad,
                                         ..Default::default()
                                     },
                                 );
@@ -537,6 +550,21 @@ impl Checker<'_> {
                         if waits_for_finished {
                             self.v("C10", "waits-for-finished-dependency", "dep-finished".into(), format!("task {jid}@{tid} waits for finished dependency {d} after restart"), case.clone());
                         }
+                    }
+                }
+                // a pending task whose dependency is recorded as failed / canceled / aborted will be
+                // run by the restarted server (restore strips dependencies on completed tasks)
+                for d in &t.deps {
+                    let ds = rj.tasks.get(d).map(|x| x.status).unwrap_or("unknown");
+                    if matches!(ds, "failed" | "canceled" | "aborted") {
+                        let when = if t.deps_bad_at_submit.contains(d) { "-already-at-submit" } else { "" };
+                        self.v(
+                            "C03",
+                            "dependent-runnable-after-restart",
+                            format!("dep-{ds}{when}"),
+                            format!("journal prefix records {jid}@{d} as {ds} while its dependent {jid}@{tid} is still pending: a restart at this point runs the dependent"),
+                            case.clone(),
+                        );
                     }
                 }
                 let exp_unfinished = t.deps.iter().filter(|x| !terminal(rj.tasks.get(x).map(|y| y.status).unwrap_or("unknown"))).count() as u32;
